@@ -95,8 +95,16 @@ impl SignatureConverter<'_> {
         }
 
         if matches!(self.impl_receiver_kind, ImplReceiverKind::DynamicImpl) {
+            // `__impl` borrows for as long as the `self` receiver that replaced the deps parameter
+            let lifetime = match sig.inputs.first() {
+                Some(syn::FnArg::Receiver(receiver)) => receiver
+                    .reference
+                    .as_ref()
+                    .and_then(|(_, lifetime)| lifetime.clone()),
+                _ => None,
+            };
             sig.inputs
-                .insert(1, self.gen_impl_receiver(Span::call_site()));
+                .insert(1, self.gen_impl_receiver(Span::call_site(), lifetime));
         }
     }
 
@@ -109,7 +117,9 @@ impl SignatureConverter<'_> {
             ImplReceiverKind::SelfRef | ImplReceiverKind::DynamicImpl => {
                 self.gen_self_receiver(span, reference)
             }
-            ImplReceiverKind::StaticImpl => self.gen_impl_receiver(span),
+            ImplReceiverKind::StaticImpl => {
+                self.gen_impl_receiver(span, reference.and_then(|(_, lifetime)| lifetime))
+            }
         }
     }
 
@@ -133,10 +143,10 @@ impl SignatureConverter<'_> {
         })
     }
 
-    fn gen_impl_receiver(&self, _: Span) -> syn::FnArg {
+    fn gen_impl_receiver(&self, _: Span, lifetime: Option<syn::Lifetime>) -> syn::FnArg {
         let entrait = &self.crate_idents.entrait;
         syn::parse_quote! {
-            __impl: &::#entrait::Impl<EntraitT>
+            __impl: & #lifetime ::#entrait::Impl<EntraitT>
         }
     }
 
